@@ -263,6 +263,7 @@ CHECKS["C14"] = dict(
         ob("VH_C14_contain", dict(MODE=1), pkg=COPY, covers=["error", "success"], bounds="destination-side symlink variety x flags, fixed source link"),
         ob("VH_C14_contain", dict(MODE=3), pkg=COPY, covers=["error", "success", "include-patterns"], bounds="include patterns (d/g, d/*, **/g: the directory d is created late) x destination-side symlink variety (d -> outside directory holding a same-named file) x flags"),
         ob("VH_C14_wildcard", {}, pkg=COPY, covers=["symlink-match", "done"], bounds="wildcard source t/x* over three names each in {absent, file, directory, symlink to an outside directory / file / dangling}, destination path o, o/, o/p or n/m over three destination states, directory-contents and always-replace flags"),
+        ob("VH_C14_wildcard2", {}, pkg=COPY, covers=["replaced-by-symlink", "hardlink", "done"], bounds="wildcard t/*/* bringing a/f (regular, symbolic special bits), b/f (absent / file / symlink to an outside file or directory) and c/g (file or hard link of a/f) into one destination directory"),
         ob("VH_C14_contain", dict(MODE=2), T, pkg=COPY, covers=["error", "success"], bounds="both sides over reduced candidate lists", max_paths=600000),
     ],
 )
